@@ -192,8 +192,8 @@ impl Check for C02 {
 
     fn runs(&self, tier: Tier) -> u64 {
         match tier {
-            Tier::Quick => 40_000,
-            Tier::Thorough => 2_000_000,
+            Tier::Quick => 200_000,
+            Tier::Thorough => 3_000_000,
         }
     }
 
@@ -396,8 +396,8 @@ impl Check for C03 {
 
     fn runs(&self, tier: Tier) -> u64 {
         match tier {
-            Tier::Quick => 40_000,
-            Tier::Thorough => 2_000_000,
+            Tier::Quick => 200_000,
+            Tier::Thorough => 3_000_000,
         }
     }
 
@@ -650,8 +650,8 @@ impl Check for C04 {
 
     fn runs(&self, tier: Tier) -> u64 {
         match tier {
-            Tier::Quick => 25_000,
-            Tier::Thorough => 1_000_000,
+            Tier::Quick => 80_000,
+            Tier::Thorough => 1_500_000,
         }
     }
 
